@@ -359,6 +359,11 @@ def justified : List (String × String) :=
 theorem table_all_pure : ∀ m ∈ Gen.cachedMethods, m.2.2 = [] ∨ (m.1, m.2.1) ∈ justified := by
   decide
 
+/-- **the library never mutates caller-supplied inputs** (static half): the translator found no in-place change — mutating method call,
+item assignment, `del x[…]`, `x += [...]` — of a parameter, or of a local name that is a plain alias of one, anywhere in the package -/
+theorem no_argument_mutation : Gen.argMutations = [] := by
+  decide
+
 /-- the generator did find the memoised methods (an empty table would make `table_all_pure` vacuous) -/
 theorem cached_methods_nonempty : Gen.cachedMethods ≠ [] := by
   decide
